@@ -8,7 +8,54 @@ import vlib
 
 FIXED_REJECTED = ["v, S { a: }", "v, Some(_ { value: 42 })", "v, Some(>)", "v, E::V(0: 1, 0: 2)", "v, (1, _ { a: 1 })",
                   "v, [1, =]", "v, #(1, .., 2)", "v, S { a: 1 } extra", "v, E::T(0.len(: 1)", "v, (*x: 1)"]
-FIXED = ["v, S { .. }", "v, E::V { .. }", "v, [1, .., 2]", "v, [..]", "v, m::S { a: _ { .. }, .. }"]
+FIXED = ["v, S { .. }", "v, E::V { .. }", "v, [1, .., 2]", "v, [..]", "v, m::S { a: _ { .. }, .. }",
+         "S { a: 1 }, S { a: 1 }", "S { a: 1 }.a, 0..=2", "S { a: 1 }, E::V(1)", "S { a: 1 }, (1, 2)", "if c { S { a: 1 } } else { t }, S { a: 1 }"]
+
+# every syntactic form of asserted expression under every template that uses it, judged by rustc: the expansion must at least
+# PARSE wherever the pieces are spliced (a struct literal is not allowed as a bare match scrutinee, a block-like expression not as
+# a method receiver statement, ...).  Every assertion is well typed and true, so any compile error is reported.
+RUSTC_DECLS = """
+#[derive(Debug, Clone, PartialEq)] struct P { a: i32, s: String }
+#[derive(Debug, Clone, PartialEq)] enum EV { V(i32), U }
+fn mkp() -> P { P { a: 1, s: "x".to_string() } }
+"""
+INT_VALUES = ["P { a: 1, s: String::new() }.a", "if c { 1 } else { 2 }", "{ 1 }", "match c { true => 1, false => 2 }", "-m", "-m as i32", "(|| 1)()",
+              "loop { break 1 }", "unsafe { 1 }", "mkp().a", "[1, 2][0]", "(1, 2).0", "*&1", "1 + 0", "{ let cl_t = P { a: 1, s: String::new() }; cl_t }.a"]
+INT_PATTERNS = ["1", "== 1", "!= 2", "0..=2", "> 0", "|cl_x| cl_x > 0", "_"]
+TYPED = [
+    ("P { a: 1, s: \"x\".to_string() }", ["P { a: 1, s: \"x\" }", "P { a: > 0, .. }", "_ { a: 1, .. }", "P { s.len(): 1, .. }", "_"]),
+    ("if c { mkp() } else { mkp() }", ["P { a: 1, .. }", "_ { s: \"x\", .. }"]),
+    ("(P { a: 1, s: String::new() }, 2)", ["(P { a: 1, .. }, 2)", "(_, > 1)", "(0: P { a: 1, .. }, 1: 2)"]),
+    ("Some(P { a: 1, s: String::new() })", ["Some(P { a: 1, .. })", "Some(_)"]),
+    ("EV::V(1)", ["EV::V(1)", "EV::V(> 0)"]), ("if c { EV::U } else { EV::V(1) }", ["EV::U"]),
+    ("vec![P { a: 1, s: String::new() }]", ["[P { a: 1, .. }]", "#(P { a: 1, .. })", "[..]", "#(..)"]),
+    ("if c { vec![1, 2] } else { vec![] }", ["[1, 2]", "#(2, 1)", "[1, ..]"]),
+    ("std::collections::BTreeMap::from([(\"k\".to_string(), P { a: 1, s: String::new() })])", ["#{ \"k\": P { a: 1, .. } }", "#{ .. }"]),
+    ("P { a: 1, s: \"xy\".to_string() }.s", ["\"xy\"", "== \"xy\"", "=~ r\"^x\""]),
+    ("if c { \"xy\".to_string() } else { String::new() }", ["\"xy\"", "=~ r\"y$\""]),
+]
+
+
+def rustc_value_forms(res):
+    import e2e
+    cases = [(v, p) for v in INT_VALUES for p in INT_PATTERNS] + [(v, p) for v, ps in TYPED for p in ps]
+    progs = []
+    for v, p in cases:
+        progs.append("use assert_struct::assert_struct;\n" + RUSTC_DECLS +
+                     "#[allow(unused, clippy::all)] fn main() { let c = true; let m = -1; assert_struct!(%s, %s); }\n" % (v, p))
+    out = e2e.compile_many(progs, run=True, tag="c14v")
+    e2e.cleanup("c14v")
+    bad = 0
+    for (v, p), o, src in zip(cases, out, progs):
+        if o["compiled"] and o.get("exit", 0) == 0:
+            continue
+        bad += 1
+        if bad <= 3:
+            first = next((l for l in o["stderr"].splitlines() if l.startswith("error")), o["stderr"][:200]) if not o["compiled"] else "the true assertion failed at run time"
+            res.violation("failing-input", "`assert_struct!(%s, %s)` is accepted by the macro but its expansion is rejected by rustc: %s" % (v, p, first[:300]),
+                          {"program": src, "stderr": o["stderr"][-1500:]})
+    res.streams["value-expression-forms(rustc)"] = {"programs": len(cases), "rejected_or_failed": bad}
+    return bad
 
 
 def run(res):
@@ -87,6 +134,12 @@ def run(res):
                                "difference": maclib.first_diff(f.tokens, g[4]) if g[0] == "ok" else g[1][:300]})
     res.streams["history"] = {"fresh_process_comparisons": len(sample), "after_corrupted_invocations": len(followers),
                               "of_which_rejected": n_rej, "differences": hist_bad}
+    name_v = "direct:every form of asserted expression under every template compiles (rustc)"
+    res.obligations.append(name_v)
+    vbad = rustc_value_forms(res)
+    failing += vbad
+    if not vbad:
+        res.discharged.append(name_v)
     expstage.report_disagreement(res, name, dis, failing > 0 or hist_bad > 0)
     if not dis and not failing and not hist_bad:
         res.discharged.append(name)
@@ -129,6 +182,13 @@ def run(res):
 
 def replay(res, path):
     v = json.load(open(path))
+    if "program" in v:
+        import e2e
+        o = e2e.compile_many([v["program"]], run=True, tag="c14r")[0]
+        e2e.cleanup("c14r")
+        bad = not o["compiled"] or o.get("exit", 0) != 0
+        print("the program", "is rejected by rustc or fails (violation)" if bad else "compiles and passes: property holds on this input")
+        return 1 if bad else 0
     inv = v.get("invocation") or v.get("first_disagreement", {}).get("invocation")
     ok, out = maclib.build_mac()
     if not ok:
